@@ -54,7 +54,7 @@ SReset ==
   /\ IsEv("Reset")
   /\ LET e == Rec[l] IN
      /\ sid' = e.id
-     /\ cfg' = [kind |-> e.kind, crc |-> e.crc, nblocks |-> e.nblocks, cap |-> (IF e.weird THEN 0 ELSE Num(e.cap)), capp |-> e.cap, a41 |-> e.acmd41, csd |-> e.csd, weird |-> e.weird, caprem |-> e.caprem, oor |-> e.oor]
+     /\ cfg' = [kind |-> e.kind, crc |-> e.crc, nblocks |-> e.nblocks, cap |-> (IF e.weird THEN 0 ELSE Num(e.cap)), capp |-> e.cap, a41 |-> e.acmd41, csd |-> e.csd, weird |-> e.weird, caprem |-> e.caprem, oor |-> e.oor, retries |-> e.retries]
      /\ c' = InitCard(e.acmd41)
      /\ viol' = Report(IF e.weird \/ CsdBlocks(e.csd) = Num(e.cap) THEN {} ELSE {<<"TOOL", "Simulator", "capacity of the generated CSD differs from SdCard.CsdBlocks">>})
   /\ mem' = <<>> /\ exp' = <<>> /\ call' = NoCall /\ seen' = {} /\ needinit' = TRUE /\ first' = TRUE /\ alive' = TRUE
@@ -64,7 +64,7 @@ SReset ==
 SCall ==
   /\ IsEv("Call") /\ call = NoCall
   \* (block numbers from 2^31 on are beyond every capacity: kept within TLC's integers)
-  /\ call' = [op |-> Rec[l].op, blk |-> IF Rec[l].blk[1] >= 32768 THEN 2147418112 ELSE Num(Rec[l].blk), n |-> Rec[l].n, pay |-> Rec[l].pay]
+  /\ call' = [op |-> Rec[l].op, blk |-> IF Rec[l].blk[1] >= 32768 THEN 2147418112 ELSE Num(Rec[l].blk), n |-> Rec[l].n, pay |-> Rec[l].pay, c0 |-> 0]
   /\ seen' = {} /\ first' = TRUE /\ dl' = <<>> /\ nst' = 0 /\ c14' = FALSE
   /\ l' = l + 1
   /\ UNCHANGED <<sid, cfg, c, mem, exp, needinit, alive, stuck, viol, lost>>
@@ -107,8 +107,9 @@ SCmd ==
         /\ stuck' = IF e.idx = 0 /\ e.r1 = 1 THEN FALSE ELSE stuck
         /\ lost' = IF e.idx = 0 /\ e.r1 = 1 THEN FALSE ELSE (lost \/ (e.misb \in {"silent", "r1err", "r1ill", "r1crc"} /\ c.mode # "Cmd"))
   /\ first' = FALSE
+  /\ call' = IF call # NoCall /\ Rec[l].idx = 0 /\ ~Rec[l].acmd THEN [call EXCEPT !.c0 = @ + 1] ELSE call       \* resets sent inside this call
   /\ l' = l + 1
-  /\ UNCHANGED <<sid, cfg, exp, call, alive, nst>>
+  /\ UNCHANGED <<sid, cfg, exp, alive, nst>>
 
 SIdle ==
   /\ IsEv("Idle")
@@ -199,6 +200,7 @@ SRet ==
             (IF e.k = "panic" THEN {<<"C13", "Panic", call.op \o ": " \o e.e>>} ELSE {})
        \cup (IF e.over THEN {<<"C13", "Hang", call.op \o " exceeded the SPI traffic budget">>} ELSE {})
        \* C12: on a healthy card with legal timing every call succeeds and is exact
+       \cup (IF e.k = "panic" /\ ~Faulty THEN {<<"C12", "Result", call.op \o " panicked on a healthy card: " \o e.e>>} ELSE {})
        \cup (IF ~ok /\ e.k # "panic" /\ ~e.over /\ ~Faulty /\ call.op # "mark_uninit" /\ ~(dataop /\ (call.blk + call.n > cfg.nblocks \/ call.blk >= cfg.nblocks))
              THEN {<<"C12", "Result", call.op \o " failed on a healthy card: " \o e.e>>} ELSE {})
        \cup (IF ok /\ call.op = "read" /\ e.pay # [i \in 1..call.n |-> MemAt(exp, blocks[i])]
@@ -236,6 +238,9 @@ SRet ==
              THEN {<<"C13", "RejectAccepted", "write reported success although the card did not accept a block">>} ELSE {})
        \cup (IF ok /\ call.op = "write" /\ call.n = 1 /\ "status" \in seen
              THEN {<<"C13", "StatusIgnored", "single-block write reported success although the status reports a failure">>} ELSE {})
+       \* the retry budget of the reset belongs to each initialisation: giving up on a live card before it is used up is not allowed
+       \cup (IF ~ok /\ e.k = "err" /\ e.e = "CardNotFound" /\ alive /\ ~stuck /\ seen \cap {"spi", "dead", "unpowered"} = {} /\ call.c0 <= cfg.retries
+             THEN {<<"C13", "Reinit", "initialisation gave up after " \o ToString(call.c0) \o " reset(s) although " \o ToString(cfg.retries) \o " retries are configured">>} ELSE {})
        \cup (IF ok /\ "spi" \in seen THEN {<<"C13", "SpiIgnored", "call reported success although the SPI bus failed">>} ELSE {}))
      /\ exp' = IF call.op = "write"
                THEN (IF ok THEN [x \in DOMAIN exp \cup {blocks[i] : i \in 1..call.n} |->
